@@ -101,6 +101,11 @@ PROPS = {
         "Bounded so far: after every operation of every enumerated handle history (clone, subscribe, downgrade, upgrade, into_shared, drops; at most 3 owners, 3 subscribers, 2 weak references) observable_count, subscriber_count, strong_count and weak_count reported by every owner equal the model's numbers, for both lock flavours.",
         "bounded stand-in, exhaustive in the stated scope; handle-count contracts pending",
         BND, [BOUNDED_NOTE]),
+    "C20": dict(P("other", ["subscriber"], ["drops", "obs-counts"],
+        "Mixed. (1) Verus proves the `unsafe { unreachable_unchecked() }` arm of VectorSubscriberStream::poll_next unreachable (vstd gives it `requires false`). (2) Kani (CBMC) checks the in-place replacement in reusable_box.rs on loop-free harnesses with drop-counting futures and symbolic payloads: same-layout reuse, different-layout reallocation, rejected try_set; pointer, double-free and dead-object checks plus 'each future dropped exactly once, none early' — complete for the instantiated future types. (3) thorough: Kani on Observable::into_shared (ptr::read + mem::forget) with #[kani::unwind(3)] and unwinding assertions on; Miri (tree borrows) on a fixed set of histories through every unsafe block. (4) A token scan compares every unsafe-related site with the audited list; a new site makes the property undecided. (5) Bounded drop accounting with an instrumented item type: nothing handed to the library stays alive after everything is dropped, including streams abandoned in the middle of a batch. Everything else is safe Rust (ownership discipline).",
+        "only the Verus obligation is counted as discharged; Kani results hold for the instantiated types; Miri and the drop accounting are bounded; 'never twice' for safe code rests on Rust's ownership discipline",
+        "Verus (one obligation) + Kani/CBMC on the unsafe blocks + Miri-run and native bounded drop accounting + token scan"),
+        extras=["unsafe-scan", "kani-reusable-box", "kani-into-shared", "miri"]),
     "C17": P("proof", ["vector", "transaction", "entry"], [],
         "Verus proves for every ObservableVector and transaction mutator the plain-vector result and return value, (R-PANIC) that at every panic site (insert/set/remove/entry out of range) nothing has been changed, batched or sent, and that a normal return implies the index was in range; for entry.rs and the transaction entries: next offers the element at the cursor iff in range, set replaces it, remove removes it WITHOUT advancing the borrowed cursor, drop of a borrowed entry advances it by one; and the lemma over that cursor machine: whatever the per-element decisions (keep/set/remove/set-then-remove/stop), every original element is offered exactly once in index order and an early exit leaves the rest untouched.",
         "Rust runs Drop exactly once for an entry not consumed by remove (R-TRAIT: drop/deref are verified as inherent methods); for_each's loop over a caller closure is not under contract",
@@ -116,5 +121,4 @@ NOT_APPLICABLE = {
 }
 # properties whose check is not built yet in this round (kept out of `checks`, listed with the reason)
 PENDING = {
-    "C20": "Kani harnesses not built yet in this round",
 }
